@@ -131,7 +131,10 @@ def ctor_faults(res, lean):
                     if raised:
                         bad.append((pos, e, "raised on EACCES"))
                     continue
-                lines.append(f"fdctor {n_watches} {'-' if pos is None else pos}")
+                if pos is not None and e == errno.ENOENT:
+                    lines.append(f"fdctortol {n_watches} {pos}")       # "not there any more": a sub-directory is skipped
+                else:
+                    lines.append(f"fdctor {n_watches} {'-' if pos is None else pos}")
                 impl.append(f"open={len(k.open_fds())} raised={int(raised)}")
                 if k.violations:
                     bad.append((pos, e, "; ".join(k.violations)))
